@@ -180,3 +180,98 @@ func ruleContainerReset(keep func(string) bool, floor int) ruleFunc {
 		c.R.Floor("L3-container-reset", n, floor)
 	}
 }
+
+// L4 — made with a length, then appended to.  make([]T, n) already has n zero
+// elements; appending the real elements after them leaves n leading zero values
+// (nil pointers, empty geometries).  The slice must either be made with length
+// 0 (and a capacity) or be filled by index.
+func ruleMakeThenAppend(keep func(string) bool, floor int) ruleFunc {
+	return func(c *Ctx) {
+		p := c.P
+		c.R.Rule("L4: no slice created with a non-zero length (make([]T, n)) is afterwards grown with append without ever being filled by index (the n leading elements would stay zero)")
+		n := 0
+		for _, fn := range p.Funcs() {
+			key := ShortKey(FuncKey(fn))
+			if keep != nil && !keep(key) {
+				continue
+			}
+			ord := 0
+			for _, b := range fn.Blocks {
+				for _, in := range b.Instrs {
+					mk, ok := in.(*ssa.MakeSlice)
+					if !ok {
+						continue
+					}
+					if cst, ok := mk.Len.(*ssa.Const); ok && cst.Int64() == 0 {
+						continue
+					}
+					n++
+					// locations the slice is stored to
+					locs := map[string]bool{}
+					values := map[ssa.Value]bool{mk: true}
+					for _, r := range *mk.Referrers() {
+						if st, ok := r.(*ssa.Store); ok && st.Val == mk {
+							locs[addrKey(st.Addr)] = true
+						}
+						if ct, ok := r.(*ssa.ChangeType); ok {
+							values[ct] = true
+							for _, r2 := range *ct.Referrers() {
+								if st, ok := r2.(*ssa.Store); ok && st.Val == ct {
+									locs[addrKey(st.Addr)] = true
+								}
+							}
+						}
+					}
+					isIt := func(v ssa.Value) bool {
+						if values[v] {
+							return true
+						}
+						if ld, ok := v.(*ssa.UnOp); ok && ld.Op == token.MUL && locs[addrKey(ld.X)] {
+							return true
+						}
+						return false
+					}
+					appended, indexed := false, false
+					var at ssa.Instruction
+					for _, b2 := range fn.Blocks {
+						for _, in2 := range b2.Instrs {
+							switch x := in2.(type) {
+							case *ssa.Call:
+								if isBuiltin(x, "append") && len(x.Call.Args) > 0 && isIt(x.Call.Args[0]) {
+									appended, at = true, x
+								}
+								if isBuiltin(x, "copy") && len(x.Call.Args) > 0 && isIt(x.Call.Args[0]) {
+									indexed = true
+								}
+								if _, isB := x.Call.Value.(*ssa.Builtin); !isB {
+									// handed to a function that may fill it (binary.PutUint32(data, ...), io.ReadFull(r, buf))
+									for _, a := range x.Call.Args {
+										if isIt(a) {
+											indexed = true
+										}
+									}
+								}
+							case *ssa.IndexAddr:
+								if isIt(x.X) {
+									indexed = true
+								}
+							case *ssa.Slice:
+								if isIt(x.X) {
+									indexed = true // resliced (e.g. s[:0]) before use
+								}
+							}
+						}
+					}
+					cons := fmt.Sprintf("%s#make#%d", key, ord)
+					ord++
+					if appended && !indexed {
+						c.R.Bad("L4-make-then-append", cons, p.InstrPos(at), "a slice made with a non-zero length is only appended to: its leading elements stay zero values (nil members) in front of the appended ones")
+					} else {
+						c.R.OK("L4-make-then-append", cons, p.InstrPos(mk), "filled by index / not appended to")
+					}
+				}
+			}
+		}
+		c.R.Floor("L4-make-then-append", n, floor)
+	}
+}
